@@ -301,12 +301,22 @@ func c14encodeWorld(c *vf.Ctx, cfg gcsCfg) {
 	var g *gcs.Filter
 	var err error
 	// FromBytes(Bytes)
-	if c.Call("FromBytes", w.describe, func() { g, err = gcs.FromBytes(uint32(N), cfg.P, cfg.M, want) }) {
+	// The source buffers are the harness's own copies and are overwritten
+	// right after the call (a caller reusing its read buffer): the rebuilt
+	// filter must keep its bytes and answers.
+	src := append([]byte{}, want...)
+	if c.Call("FromBytes", w.describe, func() { g, err = gcs.FromBytes(uint32(N), cfg.P, cfg.M, src) }) {
+		for j := range src {
+			src[j] ^= 0xa5
+		}
 		c14rebuilt(c, w, "FromBytes", g, err, qs, sets, orig)
 	}
 	// FromNBytes(NBytes)
 	nb := c14concat(cs, want)
 	if c.Call("FromNBytes", w.describe, func() { g, err = gcs.FromNBytes(cfg.P, cfg.M, nb) }) {
+		for j := range nb {
+			nb[j] ^= 0xa5
+		}
 		c14rebuilt(c, w, "FromNBytes", g, err, qs, sets, orig)
 	}
 	// PBytes: strip P in the harness
@@ -543,7 +553,11 @@ func (g *c14blockGen) spend() *wire.MsgTx {
 			idx = uint32(r.Intn(3)) // duplicate outpoints are likely
 		} else {
 			r.Fill(h[:])
-			idx = []uint32{0, 1, 0xff, 0x100, 0xffff, 0x10000, 0xfffffffe, r.Uint32()}[r.Intn(8)]
+			// incl. index 0xffffffff on a NON-zero hash: not a null outpoint under any reading
+			idx = []uint32{0, 1, 0xff, 0x100, 0xffff, 0x10000, 0xfffffffe, 0xffffffff, r.Uint32()}[r.Intn(9)]
+			if idx == 0xffffffff {
+				h[0] |= 1
+			}
 		}
 		if h == (chainhash.Hash{}) && idx == 0xffffffff {
 			idx = 0 // never coinbase-shaped
